@@ -42,7 +42,7 @@ m = {
     "engines": [{"name": "gosym", "path": "/verif/sym + /verif/engine/cmd/ssa2json", "serves_properties": sorted(CHECKS),
                  "kind_free_text": "go/ssa (x/tools v0.29.0) -> JSON -> Python symbolic executor; domains: z3 bit-vectors, Int-LF (linear integer forms with explicit wrap), ring/chain/dlog/group abstractions with contracts discharged in the same run; amd64 assembly subset interpreter; z3 5.1.0 (cross-checks: z3 4.8.12, cvc5 1.0.3)"}],
     "checks": checks,
-    "notes": "Solver-based checking of the real code: every run regenerates the SSA from /repo's working tree. Exit 0 = all obligations unsat; exit 1 + VIOLATION = counterexample reproduced on the real compiled package; exit 2 = inconclusive (unknown/timeout/unsupported construct), never reported as success.",
+    "notes": "Solver-based checking of the real code: every run regenerates the SSA from /repo's working tree (or $VERIF_REPO). Exit 0 = all obligations unsat; exit 1 + VIOLATION = counterexample reproduced on the real compiled package (solver model and structured candidates replayed through a driver injected with go test -overlay; oracle = independent big-integer reference); exit 2 = inconclusive (unknown/timeout/unsupported construct and the native safety-net battery found nothing), never reported as success. KNOWN-FINDING lines come from known_findings.txt. Thorough tier: larger term counts, 3 goroutines, every goal query cross-checked by z3 4.8.12 and cvc5, larger translator-validation samples. tools/mutsuite.sh re-runs the 15 own mutants and the 30+ seeded changes.",
     "not_applicable": na,
 }
 json.dump(m, open(os.path.join(V, "MANIFEST.json"), "w"), indent=1)
